@@ -115,7 +115,30 @@ class StmtMixin(ExecBase):
         m = getattr(self, "ex_" + type(s).__name__, None)
         if m is None:
             raise Unsupported("statement %s at line %d" % (type(s).__name__, s.lineno))
-        return m(s, st, ctx, lambda st1: self.ex_block(stmts[1:], st1, ctx, k))
+        c = getattr(ctx, "contract", None)
+        lem = None
+        if c is not None and c.lemmas and getattr(ctx, "qual", None) == getattr(self, "top_qual", None) and self.inline_depth == 0 \
+                and not isinstance(s, (ast.For, ast.While, ast.If, ast.Try, ast.FunctionDef, ast.ClassDef)):
+            try:
+                txt = ast.unparse(s)
+            except Exception:
+                txt = ""
+            for key, specs in c.lemmas.items():
+                if key.startswith("before:"):
+                    if key[7:] in txt:
+                        self.lemmas_seen.add(key)
+                        for j, sp in enumerate(specs):
+                            self.oblige(st, "line%d::lemma-before[%s]#%d" % (s.lineno, key[7:37], j), self.spec_bool(sp, st, ctx, {}), s.lineno, kind="lemma")
+                elif key in txt:
+                    lem = (key, specs)
+                    self.lemmas_seen.add(key)
+
+        def after(st1):
+            if lem is not None:
+                for j, sp in enumerate(lem[1]):
+                    self.oblige(st1, "line%d::lemma[%s]#%d" % (s.lineno, lem[0][:30], j), self.spec_bool(sp, st1, ctx, {}), s.lineno, kind="lemma")
+            self.ex_block(stmts[1:], st1, ctx, k)
+        return m(s, st, ctx, after)
 
     def ex_Pass(self, s, st, ctx, k):
         k(st)
